@@ -55,12 +55,20 @@ func (r *Report) add(rule, construct string, st Status, pos, detail string) {
 	r.Obls = append(r.Obls, Obligation{Rule: rule, Key: key, Status: st, Pos: pos, Detail: detail})
 }
 
-func (r *Report) ok(rule, construct, pos, detail string)   { r.add(rule, construct, Discharged, pos, detail) }
-func (r *Report) bad(rule, construct, pos, detail string)  { r.add(rule, construct, Violated, pos, detail) }
-func (r *Report) undec(rule, construct, pos, detail string) { r.add(rule, construct, Undecided, pos, detail) }
-func (r *Report) skip(rule, construct, pos, detail string) { r.add(rule, construct, NotJudged, pos, detail) }
-func (r *Report) note(f string, a ...interface{})          { r.Notes = append(r.Notes, fmt.Sprintf(f, a...)) }
-func (r *Report) rule(name, text string)                   { r.Rules[name] = text }
+func (r *Report) ok(rule, construct, pos, detail string) {
+	r.add(rule, construct, Discharged, pos, detail)
+}
+func (r *Report) bad(rule, construct, pos, detail string) {
+	r.add(rule, construct, Violated, pos, detail)
+}
+func (r *Report) undec(rule, construct, pos, detail string) {
+	r.add(rule, construct, Undecided, pos, detail)
+}
+func (r *Report) skip(rule, construct, pos, detail string) {
+	r.add(rule, construct, NotJudged, pos, detail)
+}
+func (r *Report) note(f string, a ...interface{}) { r.Notes = append(r.Notes, fmt.Sprintf(f, a...)) }
+func (r *Report) rule(name, text string)          { r.Rules[name] = text }
 func (r *Report) assume(s string) {
 	for _, a := range r.Assume {
 		if a == s {
